@@ -113,7 +113,7 @@ PROP_RE = re.compile(r'^\[(?P<name>[^\]]+)\] (?P<desc>.*): (?P<res>SUCCESS|FAILU
 
 def run_cbmc(cfiles, unwind, timeout, mem_gb=12, checks=True, trace_property=None, extra=(), wd=None, defs=None):
     cmd = ['cbmc'] + list(cfiles) + ['-I' + RT, '--unwind', str(unwind), '--unwinding-assertions',
-                                    '--no-malloc-may-fail', '--drop-unused-functions', '--object-bits', '12']
+                                    '--no-malloc-may-fail', '--drop-unused-functions', '--object-bits', '12', '--slice-formula']
     if not checks:
         cmd.append('--no-standard-checks')
     else:
@@ -151,12 +151,8 @@ def parse_cbmc(r):
 
 
 def trace_values(out):
-    """values of verif_nondet_* calls in call order, read from the trace's assignments to __vf_trace[i]"""
-    vals = {}
-    for m in re.finditer(r'__vf_trace\[(\d+)l?l?\]=(\d+)u?l?l?\b', out):
-        vals[int(m.group(1))] = int(m.group(2))
-    n = max(vals) + 1 if vals else 0
-    return [vals.get(i, 0) for i in range(n)]
+    """values of verif_nondet_* calls in call order, read from the trace (the nondet_uNN() return values, by state order)"""
+    return [int(m.group(1)) for m in re.finditer(r'^\s*return_value_nondet_u(?:8|32|64)=(\d+)', out, re.M)]
 
 
 def build_native(src, defs, std, wd, sanitize=False, out='native'):
